@@ -322,4 +322,7 @@ func init() {
 	// C12's clause "rejecting or losing a connection at any stage never stops
 	// a dialer from redialling" is decided by the same runs
 	register(&Scenario{Name: "dialer-keeps-redialling", Prop: "C12", Horizon: 2 * time.Hour, Weight: 4, Run: c14Run})
+	// C19: the reconnect options "take effect as documented" (MaxReconnectTime
+	// is a ceiling, ReconnectTime the floor and the value after a success)
+	register(&Scenario{Name: "reconnect-options-effective", Prop: "C19", Horizon: 2 * time.Hour, Weight: 6, Run: c14Run})
 }
